@@ -6,6 +6,7 @@
 //!   acc  <n> <cmd>*  cmd = c (client connects) | e<k> (the handler drops the Token of connection k)
 //!                        | r (revoke) | f<e> (accept() fails with EMFILE for 200+500e ms while a client knocks)
 //!                        | F<e> (the same, and the permit is revoked while accept() is still failing)
+//!                        | L (a stalled global logger is installed for the rest of the case)
 #![allow(dead_code)]
 use crate::srv_common::*;
 use permit::Permit;
@@ -154,12 +155,21 @@ fn acc_case(toks: &[String]) -> (String, bool) {
             }
         }
     };
+    let mut stalled_logger = None;
     let mut scratch_clients: Vec<Option<TcpStream>> = Vec::new(); // knocked while accept() failed, never admitted
     for c in &toks[2..] {
         let c = c.as_str();
         if c == "c" {
             clients.push(TcpStream::connect_timeout(&addr, Duration::from_millis(1000)).ok());
             pred.connect();
+        } else if c == "L" {
+            // from now on the process has a global logger whose one-slot queue is full and that nobody drains: a
+            // logging call made by the code under test blocks.  Stopping must not depend on the logger.
+            let (tx, rx) = std::sync::mpsc::sync_channel(1);
+            let _ = tx.send(servlin::log::internal::LogEvent::new(servlin::log::Level::Info, ()));
+            if let Ok(g) = servlin::log::set_global_logger(tx) {
+                stalled_logger = Some((g, rx));
+            }
         } else if c == "r" {
             top.revoke();
             pred.revoke();
@@ -212,6 +222,10 @@ fn acc_case(toks: &[String]) -> (String, bool) {
     top.revoke();
     sh.held.lock().unwrap().clear();
     drop(clients);
+    if let Some((g, rx)) = stalled_logger.take() {
+        drop(rx); // blocked senders (if any) fail now
+        drop(g);
+    }
     (format!("{} ; {} ; over={}", out.join(" "), scratch[0], over), matched)
 }
 
